@@ -138,6 +138,7 @@ type World struct {
 	traceMode bool
 	lastShape string
 	InnerEvals int // evaluations made inside the state oracle of this world (evidence counter)
+	failRoots  []atree.SlabID // roots that cannot be encoded (schedule scenarios)
 
 	// prov: for every live handle object, the operation that produced it and whether its container
 	// was stored inline at that moment (facts a parent callback may capture when it is installed).
